@@ -221,6 +221,26 @@ theorem trace_rank_independent_partial (rp : Repairs) (api : Api) (cfg : Cfg) (w
         · simp [he]
       rw [key a hta, key b htb]
 
+  | metaCall k =>
+    simp only [localTrace, metaTrace]
+    rw [hroot]
+    by_cases hs : cfg.safe = true
+    · simp only [hs, if_true]
+    · have hs' : cfg.safe = false := by simpa using hs
+      simp only [hs', Bool.false_eq_true, if_false]
+      have key : ∀ x : RankInput, ¬ Trigger rp (.metaCall k) cfg x →
+          (if metaCode x ≠ 0 then (if rp.metaErrJoins = true then metaBody k cfg (world.headD b).margs else [])
+           else metaBody k cfg (world.headD b).margs) = metaBody k cfg (world.headD b).margs := by
+        intro x hx
+        by_cases he : metaCode x ≠ 0
+        · cases hz : rp.metaErrJoins with
+          | true => simp [he]
+          | false =>
+            have : x.metaErr ≠ 0 := fun h0 => he ((metaCode_eq_zero_iff x).mpr h0)
+            exact absurd ⟨hz, hs', this⟩ hx
+        · simp [he]
+      rw [key a hta, key b htb]
+
 theorem no_trigger_when_repaired (api : Api) (cfg : Cfg) (x : RankInput) : ¬ Trigger Repairs.all api cfg x := by
   unfold Trigger
   split
@@ -288,13 +308,13 @@ theorem f2_deadlocks :
 theorem errors_local (api : Api) (cfg : Cfg) (hs : cfg.safe = false) (w1 w2 : List RankInput) (me : RankInput)
     (hroot : w1.head? = w2.head?) :
     localRet api cfg w1 me = localRet api cfg w2 me := by
-  cases api <;> simp [localRet, getputRet, fillRet, enddefRet, renameRet, modeRet, hs, hroot]
+  cases api <;> simp [localRet, getputRet, fillRet, enddefRet, renameRet, metaRet, modeRet, hs, hroot]
 
 /-- …and for everything but create/open not even on root's -/
 theorem errors_local_data (api : Api) (hapi : api ≠ .create ∧ ∀ n, api ≠ .openFile n) (cfg : Cfg)
     (hs : cfg.safe = false) (w1 w2 : List RankInput) (me : RankInput) :
     localRet api cfg w1 me = localRet api cfg w2 me := by
-  cases api <;> simp [localRet, getputRet, fillRet, enddefRet, renameRet, hs]
+  cases api <;> simp [localRet, getputRet, fillRet, enddefRet, renameRet, metaRet, hs]
   · exact absurd rfl hapi.1
   · exact absurd rfl (hapi.2 _)
 
@@ -372,11 +392,44 @@ example : ∀ x ∈ ([{ fillCls := .ok, recno := 3 }, { fillCls := .ok, recno :=
 example : localRet .fillVarRec { safe := true } [{ fillCls := .ok, recno := 3 }, { fillCls := .ok, recno := 5 }]
     { fillCls := .ok, recno := 3 } = -269 := by decide
 
+/-! ### 5. the safe-mode argument comparison of the metadata calls -/
+/-- which broadcasts a rank executes in the comparison block is decided by ROOT's arguments: a non-root rank that
+    passes nelems = 0 to ncmpi_put_att while root passes 4 elements still takes part in the broadcast of the values
+    (5 argument broadcasts + 1 for the values), and every rank gets NC_EMULTIDEFINE_ATTR_LEN -/
+example : localTrace Repairs.none (.metaCall .putAtt) { safe := true, indef := true }
+    [{ margs := { name := 1, len := 4, vals := 7 } }, { margs := { name := 1, len := 0 } }] { margs := { name := 1, len := 0 } }
+    = [.allreduce, .bcast, .bcast, .bcast, .bcast, .bcast, .bcast, .allreduce] := by decide
+example : localRet (.metaCall .putAtt) { safe := true, indef := true }
+    [{ margs := { name := 1, len := 4, vals := 7 } }, { margs := { name := 1, len := 0 } }] { margs := { name := 1, len := 4, vals := 7 } }
+    = -267 := by decide
+/-- … and no values broadcast at all when it is root that passes nelems = 0 -/
+example : localTrace Repairs.none (.metaCall .putAtt) { safe := true, indef := true }
+    [{ margs := { name := 1, len := 0 } }, { margs := { name := 1, len := 4, vals := 7 } }] { margs := { name := 1, len := 4, vals := 7 } }
+    = [.allreduce, .bcast, .bcast, .bcast, .bcast, .bcast, .allreduce] := by decide
+
+/-- safe mode on: every rank returns the same code from the metadata calls whose comparison is done in the dispatcher
+    (put_att, def_dim, def_var, rename_dim, rename_att, del_att, copy_att), whatever the ranks disagree on -/
+theorem safe_same_code_meta (k : MetaKind) (hk : ∀ r m, metaDriverOwn k r m = 0) (cfg : Cfg) (hs : cfg.safe = true)
+    (world : List RankInput) (a b : RankInput) (ha : a ∈ world) (_hb : b ∈ world) :
+    localRet (.metaCall k) cfg world a = localRet (.metaCall k) cfg world b := by
+  have hroot : world.headD a = world.headD b := headD_of_mem world a b a ha
+  simp only [localRet, metaRet, hs, if_true, hk, ne_eq, not_true_eq_false, if_false]
+  rw [hroot]
+example : ∀ r m, metaDriverOwn .putAtt r m = 0 := fun _ _ => rfl
+example : ∀ r m, metaDriverOwn .defVar r m = 0 := fun _ _ => rfl
+example : ∀ r m, metaDriverOwn .renameAtt r m = 0 := fun _ _ => rfl
+
+/-- the code is the NC_EMULTIDEFINE_* of the first argument (in comparison order) on which some rank differs from root,
+    minimised over the ranks: with a single disagreeing argument it is that argument's code on every rank -/
+example : localRet (.metaCall .putAtt) { safe := true }
+    [{ margs := { name := 1, len := 4, vals := 7 } }, { margs := { name := 1, len := 4, vals := 8 } }, { margs := { name := 1, len := 4, vals := 7 } }]
+    { margs := { name := 1, len := 4, vals := 7 } } = -268 := by decide
+
 def obligations : List String := [
   "trace_rank_independent_counterexample", "trace_needs_zeroPathNumrecs", "trace_needs_zeroPathBadVarid", "trace_needs_fillVarRecErr",
   "trace_needs_metaErrJoins", "trace_rank_independent_partial", "trace_rank_independent_repaired",
   "matched_traces_no_deadlock", "completes_iff_all_equal", "mismatch_deadlocks", "no_deadlock_partial", "f2_deadlocks",
   "errors_local", "errors_local_data", "valid_rank_succeeds",
-  "safe_same_code_counterexample", "safe_same_code_partial", "safe_same_code_fill"
+  "safe_same_code_counterexample", "safe_same_code_partial", "safe_same_code_fill", "safe_same_code_meta"
 ]
 end PnVerif.Props.C08
